@@ -90,6 +90,19 @@ func checkC19Target(raw json.RawMessage) (ev.Result, error) {
 	if c.GOOS != "linux" {
 		res.Classes = append(res.Classes, "non-linux-target")
 	}
+	if c.GOOS != "linux" && c.GOOS != "android" { // (android is Linux: the linux build constraint holds there)
+		// the loader functions of this target, as selected by the go tool, do not call into the operating system
+		calls, inspected, serr := stubCallsOnTarget(c.GOOS, c.GOARCH)
+		if serr != nil {
+			return res, ev.Inconclusivef("loader stubs of %s/%s: %v", c.GOOS, c.GOARCH, serr)
+		}
+		if len(calls) > 0 {
+			return res, fmt.Errorf("on %s/%s the loader functions are not stubs: %s", c.GOOS, c.GOARCH, strings.Join(calls, "; "))
+		}
+		if inspected >= 3 {
+			res.Classes = append(res.Classes, "non-linux-loader-functions-inspected")
+		}
+	}
 	if c.GOOS == "linux" && strings.HasPrefix(c.GOARCH, "mips") {
 		res.Classes = append(res.Classes, "linux-mips-errno-table")
 	}
